@@ -105,3 +105,6 @@ def run(ctx, chk, tier):
     from . import c02s
     c02s.structural(ctx, chk, tier)
     bounded_roundtrip(ctx, chk, tier)
+    # effect prerequisite: the setters neither write to caller/receiver arrays nor keep an unsound memo
+    from . import c10
+    c10.purity(ctx, chk, only=("Scores.threshold_at_",), strict=False)
